@@ -1,25 +1,36 @@
 #!/bin/bash
-# usage: gen_facts.sh <outdir> <cfg: A|B>
-# Runs the fvfacts driver over /repo's current working tree with a fresh target dir.
+# usage: gen_facts.sh <workdir> <cfg: A|B> [cold]
+# Runs the fvfacts driver (RUSTC_WORKSPACE_WRAPPER) over /repo's current working tree.
+# <workdir>/target is a cargo target dir kept between runs so third-party dependencies are
+# not re-checked; the fingerprints of all workspace members are deleted first, so every
+# workspace crate is re-analysed from the current sources on every generation ("cold" wipes
+# the whole target dir).  Facts land in <workdir>/facts/<crate>.json (old ones removed first).
 set -u
-OUT="$1"; CFG="${2:-A}"
+WD="$1"; CFG="${2:-A}"; MODE="${3:-warm}"
 REPO="${FV_REPO:-/repo}"
 DRV=/verif/fvfacts/target/release/fvfacts
-if [ ! -x "$DRV" ]; then (cd /verif/fvfacts && cargo +nightly build --release --offline >&2) || exit 3; fi
-mkdir -p "$OUT"
-TD=$(mktemp -d /tmp/fvtd.XXXXXX)
-trap 'rm -rf "$TD"' EXIT
+if [ ! -x "$DRV" ] || [ /verif/fvfacts/src/main.rs -nt "$DRV" ]; then
+  (cd /verif/fvfacts && CARGO_NET_OFFLINE=true cargo +nightly build --release --offline >&2) || exit 3
+fi
+mkdir -p "$WD"
+TD="$WD/target"; OUT="$WD/facts"
+[ "$MODE" = cold ] && rm -rf "$TD"
+rm -rf "$OUT"; mkdir -p "$OUT" "$TD"
+for m in fuel_asm fuel_compression fuel_crypto fuel_derive fuel_merkle fuel_merkle_test_helpers fuel_storage fuel_tx fuel_types fuel_vm version_compatibility_tests \
+         fuel-asm fuel-compression fuel-crypto fuel-derive fuel-merkle fuel-merkle-test-helpers fuel-storage fuel-tx fuel-types fuel-vm version-compatibility-tests; do
+  rm -rf "$TD"/debug/.fingerprint/$m-* 2>/dev/null
+done
 case "$CFG" in
-  A) FLAGS="--workspace --lib"; TAG="";;
-  B) FLAGS="-p fuel-tx -p fuel-compression -p fuel-vm --lib --features fuel-tx/da-compression,fuel-vm/da-compression"; TAG="";;
+  A) FLAGS="--workspace --lib";;
+  B) FLAGS="-p fuel-tx -p fuel-compression -p fuel-vm --lib --features fuel-tx/da-compression,fuel-vm/da-compression";;
   *) echo "unknown cfg $CFG" >&2; exit 3;;
 esac
 cd "$REPO" || exit 3
-FVFACTS_OUT="$OUT" FVFACTS_TAG="$TAG" \
+FVFACTS_OUT="$OUT" \
 LD_LIBRARY_PATH="$(rustc +nightly --print sysroot)/lib" \
 RUSTFLAGS="-Zmir-opt-level=0 -Awarnings" \
-RUSTC_WORKSPACE_WRAPPER="$DRV" CARGO_TARGET_DIR="$TD" CARGO_NET_OFFLINE=true \
-cargo +nightly check --offline $FLAGS > "$OUT/cargo.log" 2>&1
+RUSTC_WORKSPACE_WRAPPER="$DRV" CARGO_TARGET_DIR="$TD" CARGO_NET_OFFLINE=true CARGO_INCREMENTAL=0 \
+cargo +nightly check --offline $FLAGS > "$WD/cargo.log" 2>&1
 rc=$?
-if [ $rc -ne 0 ]; then echo "gen_facts: cargo check failed (rc=$rc), see $OUT/cargo.log" >&2; tail -30 "$OUT/cargo.log" >&2; exit 3; fi
+if [ $rc -ne 0 ]; then echo "gen_facts: cargo check failed (rc=$rc), see $WD/cargo.log" >&2; grep -E "^error" -A6 "$WD/cargo.log" | head -40 >&2; exit 3; fi
 exit 0
